@@ -128,6 +128,12 @@ func cmdCheck(args []string) int {
 		if *only != "" && !strings.Contains(hs.Name, *only) {
 			continue
 		}
+		if len(violations) > 0 && os.Getenv("VX_ALL_HARNESSES") == "" {
+			// a violation of this property has been reproduced on the real build already: the verdict is settled,
+			// the remaining harnesses are not explored (a change that breaks the property often makes them explode)
+			reports = append(reports, harnessReport{Name: hs.Name, Inconcl: []string{"not explored: a violation of the property had already been reproduced by an earlier harness"}})
+			continue
+		}
 		x, err := sx.NewExplorer(prog, hs.Name)
 		if err != nil {
 			inconclusive = append(inconclusive, err.Error())
